@@ -10,22 +10,22 @@ COMMON_NOTE = ("Trusted: Coq 8.16.1 kernel and vm_compute (no native_compute); t
                "Theorems are about the Gallina model; the tie to the code is the regenerated Gen/*.v plus the "
                "correspondence run whose coverage is printed in the evidence file. ")
 
-CHECKS = {
-    "C06": dict(
-        text=("Theorems (Props/C06.v, closed under the global context): for every element block of the embedded "
-              "composition table, run through the Gallina transcription of mass.init on the table text regenerated "
-              "from /repo, the abundances sum to exactly 100 over the listed isotopes and over all isotopes; the "
-              "abundance-weighted isotope mass is within the stated uncertainty of the atomic weight; unlisted isotopes "
-              "have abundance 0; the loader accepts every row.  Tie: exhaustive correspondence — all 119 elements and "
-              "2940 isotopes x 7 observables, public and private table, implementation value vs model value (bit-exact "
-              "for table reads).  A failing input is searched with an independent third reading of the table text."),
-        note=COMMON_NOTE + "Modelled not verified: Python float(), str.split, dict order.",
-        technique="Coq proof by kernel-evaluated sweep over regenerated tables + generic loader lemmas; exhaustive model/implementation correspondence",
-        ref="DESIGN.md section 7 C06"),
-}
+def load_checks():
+    """Each tools/props/cxx.py that defines MANIFEST = dict(text, note, technique, ref) is a claimed check."""
+    import importlib, sys
+    sys.path.insert(0, os.path.join(ROOT, "tools"))
+    out = {}
+    for pid in ALL:
+        if os.path.exists(os.path.join(ROOT, "tools", "props", pid.lower() + ".py")):
+            mod = importlib.import_module("props." + pid.lower())
+            if getattr(mod, "MANIFEST", None):
+                out[pid] = dict(mod.MANIFEST)
+                out[pid]["note"] = COMMON_NOTE + out[pid].get("note", "")
+    return out
 
 
 def main():
+    CHECKS = load_checks()
     checks = []
     for pid in ALL:
         if pid not in CHECKS:
